@@ -2533,6 +2533,8 @@ class Canon:
         from .nf import _generator_to_genexp
         b = _generator_to_genexp(b)
         b = expr_norm(b)
+        if not subst:
+            b = norm.fuse_for_over_comp(b, pure_calls=_PURE_EXT)        # loops over a generator expression (an inlined generator helper)
         if subst:
             b = norm.forward_subst(b, pure_calls=_PURE_EXT)
             b = _drop_dead_temps(b)
